@@ -597,8 +597,15 @@ def val_method(it, v, name, args, kw, node):
             v.items.reverse()
             return K(None)
         if name == 'sort':
+            if kw.get('key') is not None and not (isinstance(kw['key'], K) and kw['key'].v is None):
+                r = _sort_with_key(it, v.items, kw['key'], kw.get('reverse'), node)
+                if r is None:
+                    raise Fail('sort with a symbolic key')
+                v.items[:] = r
+                return K(None)
             if all(isinstance(x, K) for x in v.items):
-                v.items.sort(key=lambda x: x.v)
+                rev = kw.get('reverse')
+                v.items.sort(key=lambda x: x.v, reverse=bool(rev is not None and it.truth(rev)))
                 return K(None)
             raise Fail('sort of symbolic list')
         if name == 'count':
@@ -662,8 +669,14 @@ def builtin(it, name, args, kw, n):
         items = it.iterate(args[0])
         if items is not None:
             if name == 'sorted':
+                if kw.get('key') is not None and not (isinstance(kw['key'], K) and kw['key'].v is None):
+                    r = _sort_with_key(it, items, kw['key'], kw.get('reverse'), n)
+                    if r is not None:
+                        return ListV(r)
+                    return Term('sorted', ListV(items))
                 if all(isinstance(x, K) for x in items):
-                    return ListV(sorted(items, key=lambda x: x.v))
+                    rev = kw.get('reverse')
+                    return ListV(sorted(items, key=lambda x: x.v, reverse=bool(rev is not None and it.truth(rev))))
                 if len(items) <= 1:
                     return ListV(items)
                 return Term('sorted', ListV(items))
@@ -833,6 +846,24 @@ def builtin(it, name, args, kw, n):
         from .front import FuncRef, ClassRef
         return K(isinstance(args[0], (FuncRef, ClassRef, Bound, Native, Builtin, Ext)))
     return Term('builtin:' + name, *args)
+
+
+def _sort_with_key(it, items, keyf, reverse, node):
+    """stable sort by a key function whose results are concrete (ints / tuples of constants); None if a key is symbolic"""
+    keys = []
+    for x in items:
+        k = it.call(keyf, [x], {}, node)
+        if isinstance(k, ListV) and all(isinstance(e, K) for e in k.items):
+            k = K(tuple(e.v for e in k.items))
+        if not isinstance(k, K):
+            return None
+        keys.append(k.v)
+    rev = bool(reverse is not None and it.truth(reverse))
+    try:
+        order = sorted(range(len(items)), key=lambda i: keys[i], reverse=rev)
+    except TypeError:
+        raise RaiseEx('TypeError', 'unorderable sort keys')
+    return [items[i] for i in order]
 
 
 def do_len(it, v, n):
